@@ -44,6 +44,7 @@ class Baseline:
                 continue
             self.namespaces.append((mod, set(vars(mod))))
             self._scan(vars(mod), mod, seen, depth=0)
+        self.ns_sizes = {id(owner): len(vars(owner)) for owner, _ in self.namespaces}
 
     def _scan(self, namespace, owner, seen, depth):
         for attr, val in list(namespace.items()):
@@ -77,21 +78,26 @@ class Baseline:
 
     def restore(self):
         for fn, snap in self.fdicts:
-            if fn.__dict__ != snap:
-                fn.__dict__.clear()
-                fn.__dict__.update(snap)
+            d = fn.__dict__
+            if d or snap:
+                if d != snap:
+                    d.clear()
+                    d.update(snap)
         for owner, names in self.namespaces:
-            for extra in [k for k in vars(owner) if k not in names and not (k.startswith("__") and k.endswith("__"))]:
-                try:
-                    delattr(owner, extra)          # a global / class attribute created at run time
-                except Exception:
-                    pass
+            ns = vars(owner)
+            if len(ns) != self.ns_sizes[id(owner)]:
+                for extra in [k for k in ns if k not in names and not (k.startswith("__") and k.endswith("__"))]:
+                    try:
+                        delattr(owner, extra)          # a global / class attribute created at run time
+                    except Exception:
+                        pass
         for fn, d, kd in self.funcs:
             fn.__defaults__ = copy.deepcopy(d)
             fn.__kwdefaults__ = copy.deepcopy(kd)
         for obj, snap in self.objs:
             try:
-                _set_in_place(obj, snap)
+                if obj != snap:
+                    _set_in_place(obj, snap)
             except Exception:
                 pass
         for c in self.caches:
@@ -101,7 +107,8 @@ class Baseline:
                 pass
         for owner, attr, val in self.attrs:
             try:
-                if getattr(owner, attr, val) is not val and getattr(owner, attr, val) != val:
+                cur = getattr(owner, attr, val)
+                if cur is not val and cur != val:
                     setattr(owner, attr, val)
             except Exception:
                 pass
@@ -118,42 +125,48 @@ class ProcessStates:
         self.store = {}
 
     def _capture(self):
-        extras = []
-        for owner, names in self.b.namespaces:
-            extras.append({k: v for k, v in vars(owner).items()
-                           if k not in names and not (k.startswith("__") and k.endswith("__"))})
-        return ([(copy.deepcopy(fn.__defaults__), copy.deepcopy(fn.__kwdefaults__)) for fn, _, _ in self.b.funcs],
-                [copy.deepcopy(obj) for obj, _ in self.b.objs],
-                [getattr(owner, attr, val) for owner, attr, val in self.b.attrs],
-                [dict(fn.__dict__) for fn, _ in self.b.fdicts], extras)
+        """Sparse snapshot: only what differs from the import-time baseline (usually nothing)."""
+        b = self.b
+        extras = {}
+        for i, (owner, names) in enumerate(b.namespaces):
+            ns = vars(owner)
+            if len(ns) != b.ns_sizes[id(owner)]:
+                ex = {k: v for k, v in ns.items() if k not in names and not (k.startswith("__") and k.endswith("__"))}
+                if ex:
+                    extras[i] = ex
+        fdicts = {i: dict(fn.__dict__) for i, (fn, snap) in enumerate(b.fdicts) if fn.__dict__ and fn.__dict__ != snap}
+        fdefs = [(copy.deepcopy(fn.__defaults__), copy.deepcopy(fn.__kwdefaults__)) for fn, _, _ in b.funcs]
+        objs = {i: copy.deepcopy(obj) for i, (obj, snap) in enumerate(b.objs) if obj != snap}
+        attrs = {i: getattr(owner, attr, val) for i, (owner, attr, val) in enumerate(b.attrs)
+                 if getattr(owner, attr, val) is not val}
+        if not (extras or fdicts or objs or attrs or b.funcs or b.caches):
+            return None
+        return (fdefs, objs, attrs, fdicts, extras)
 
     def _apply(self, snap):
+        b = self.b
+        b.restore()                            # back to import time; the process's own differences are put back below
         if snap is None:
-            self.b.restore()
             return
         fdefs, objs, attrs, fdicts, extras = snap
-        self.b.restore()                       # drops run-time additions; the process's own ones are put back below
-        for (fn, _), d in zip(self.b.fdicts, fdicts):
-            fn.__dict__.update(d)
-        for (owner, _), ex in zip(self.b.namespaces, extras):
+        for i, d in fdicts.items():
+            b.fdicts[i][0].__dict__.update(d)
+        for i, ex in extras.items():
+            owner = b.namespaces[i][0]
             for k, v in ex.items():
                 try:
                     setattr(owner, k, v)
                 except Exception:
                     pass
-        for (fn, _, _), (d, kd) in zip(self.b.funcs, fdefs):
+        for (fn, _, _), (d, kd) in zip(b.funcs, fdefs):
             fn.__defaults__, fn.__kwdefaults__ = copy.deepcopy(d), copy.deepcopy(kd)
-        for (obj, _), val in zip(self.b.objs, objs):
+        for i, val in objs.items():
             try:
-                _set_in_place(obj, val)
+                _set_in_place(b.objs[i][0], val)
             except Exception:
                 pass
-        for c in self.b.caches:
-            try:
-                c.cache_clear()          # an lru_cache cannot be copied: every process switch starts it cold
-            except Exception:
-                pass
-        for (owner, attr, _), val in zip(self.b.attrs, attrs):
+        for i, val in attrs.items():
+            owner, attr, _ = b.attrs[i]
             try:
                 setattr(owner, attr, val)
             except Exception:
@@ -171,9 +184,16 @@ class ProcessStates:
 _BASELINE = None
 
 
-def process_states():
+_SUB_BASELINES = {}
+
+
+def process_states(prefix="traffic_weaver.datasets"):
+    """Per-simulated-process state for the part of the library the simulated processes run (the dataset loaders);
+    the baseline of that part is taken right after the whole library has been reset to import time."""
     reset_library_state()
-    return ProcessStates(_BASELINE)
+    if prefix not in _SUB_BASELINES:
+        _SUB_BASELINES[prefix] = Baseline(prefix)
+    return ProcessStates(_SUB_BASELINES[prefix])
 
 
 _NP_ERR = None
